@@ -37,7 +37,11 @@
   W1–W12, one per mechanism, in corpus/C13/collide-witnesses.txt and as `decide` theorems), so that a difference
   between model and implementation is behaviour that is NOT known (seed C13-d).
   Proved: for a hash injective on the keys used the collision-path model answers like the non-colliding bucket model and
-  the reference map, GC requests included (`C13_collide_extends_store`; restarts: stated, not proved); on the
+  the reference map, GC requests included (`C13_collide_extends_store`), and so it does with RESTARTS (tree dump kept or
+  rebuilt from the hint files, hint dump / merge, explicit revisions) in histories without GC requests, for `SplitCap ≥ 1`
+  (`C13_injective_hash_with_restarts`; the statement as first written - every configuration - is FALSE: with `SplitCap = 0`
+  the hint buffers drop every item and a rebuilt tree is empty, `C13_first_statement_false`; restarts AND GC in one
+  history: stated `C13_collide_extends_store_restarts_gc_statement`, one instance by kernel evaluation, not proved); on the
   decidable class `SafeR` of histories — any hash function, any number of colliding keys: automatic-revision sets,
   incr, get, meta-get, flush, dumper rounds, deletes of keys the table knows, restarts with the tree kept or rebuilt
   once every key with a written hash-mate is in the table — EVERY reply is the reference map's up to version numbers
@@ -45,6 +49,7 @@
 -/
 import GoBeans.Lemmas.GCLog
 import GoBeans.Lemmas.Collide
+import GoBeans.Lemmas.CollideRst
 open Store Spec StoreLemmas
 
 /-- the last record of a hash class -/
@@ -148,3 +153,18 @@ theorem C13_injective_hash_answers_like_reference (hash : Spec.Key → Nat) (K :
 /-- C13 for the code on the class SafeR: any hash function, any number of colliding keys, restarts included -/
 theorem C13_safe_class_with_restarts : CollideLemmas.C13_safe_with_restarts_statement :=
   _root_.C13_safe_with_restarts
+
+/-- with an injective hash the collision path answers like the non-colliding model and the reference map also across
+    RESTARTS (tree kept or rebuilt from the hint files), in histories without GC requests -/
+theorem C13_injective_hash_with_restarts (hash : Spec.Key → Nat) (K : Spec.Key → Prop) (hInj : StoreLemmas.InjOn hash K)
+    (cfg : Collide.Cfg) (hcv : cfg.s.checkVHash = false) (hcap : 1 ≤ cfg.cap) (R : Nat) (ops : List Collide.Op)
+    (hlen : R + ops.length < 2147483647)
+    (hops : ∀ op ∈ ops, match CollideLemmas.toH op with | some h => StoreLemmas.HOpOK K cfg.s R h | none => True)
+    (hno : noGC ops = true) :
+    (Collide.run hash cfg {} ops).2 = (StoreLemmas.hrun hash cfg.s {} (ops.filterMap CollideLemmas.toH)).2
+    ∧ (Collide.run hash cfg {} ops).2 = (StoreLemmas.hspec { checkVHash := cfg.s.checkVHash } [] (ops.filterMap CollideLemmas.toH)).2 :=
+  _root_.C13_collide_extends_store_restarts hash K hInj cfg hcv hcap R ops hlen hops hno
+
+/-- the statement as first written (every configuration, `SplitCap = 0` included) is false -/
+theorem C13_first_statement_false : ¬ C13_collide_extends_store_statement :=
+  CollideRstExample.C13_statement_false
